@@ -221,14 +221,24 @@ def search(ctx, broken, corr_failures):
 
 
 def explains(broken_item, found):
-    b = broken_item
-    keys = {v.key for v in found}
+    """A NEW concrete failing input (never a recorded finding) explains a broken obligation when it is about the same
+    source function; obligations that name no more specific cause (translator unit, correspondence, build items, lemmas
+    that match no function below) are explained by any new concrete violation."""
     known, _ = vlib.load_findings()
-    fresh = " ".join(k for k in keys if k not in known)
-    fns = ["bending", "curvature", "diffusion", "divergence", "elasticity", "total_variation", "tv", "lame", "inverse_consistency",
-           "denormalize", "grad_loss"]
-    hit = [f for f in fns if f in b]
-    return bool(hit) and any(f in fresh for f in hit)
+    fresh = [v.key.lower() for v in found if v.key not in known]
+    if not fresh:
+        return False
+    b = broken_item.lower()
+    table = [(("lame",), ("lame_parameters",)),
+             (("ic_units", "ic_zero", "denormalize", "(ic)", "inverse_consistency"), ("inverse_consistency",)),
+             (("spacing_divisors", "gen_sd_"), ("spacing", "flow_derivatives")),
+             (("gen2_ok", "gen3_ok", "gen_bending", "gen_curvature", "gen_diffusion", "gen_tv", "gen_divergence", "gen_elasticity"),
+              ("_loss:",)),
+             (("sobel", "fd_", "d1_", "d2_", "stencil", "smooth"), ("_loss:", "flow_derivatives"))]
+    for bs, ks in table:
+        if any(x in b for x in bs):
+            return any(k_ in key for k_ in ks for key in fresh)
+    return True
 
 
 def replay(ctx, data):
